@@ -64,6 +64,8 @@ def snap(a):
 
 
 def mk(values, shape, dtype, readonly=False):
+    if isinstance(values, list) and any(isinstance(v, str) for v in values):
+        values = [float(v) if isinstance(v, str) else v for v in values]        # 'nan', 'inf', '-inf' travel as strings
     a = np.array(values, dtype=dtype).reshape(shape)
     if readonly:
         a.setflags(write=False)
@@ -130,8 +132,8 @@ def call(c, keep=None):
         if f == 'interp':
             shape = tuple(c['shape'])
             y = arr(c, 'y', shape)
-            m = arr(c, 'mask', shape, c.get('maskdtype', 'i4'))
-            x = arr(c, 'xval', shape)
+            m = arr(c, 'mask', tuple(c.get('mshape') or shape), c.get('maskdtype', 'i4'))
+            x = arr(c, 'xval', tuple(c.get('xshape') or shape))
             if c.get('direct1'):
                 out = djs_maskinterp1(y, m, xval=x, const=bool(c.get('const')))
             else:
@@ -143,8 +145,10 @@ def call(c, keep=None):
             nd = len(shape)
             ax = nd - 1 - (c.get('axis') or 0)
             idx = np.arange(y.size).reshape(shape)
-            return post({'ok': [float(v) for v in out.ravel()], 'dtype': str(out.dtype),
-                         'np_lines': np.moveaxis(idx, ax, -1).reshape(-1, shape[ax]).tolist()}, [out])
+            res = {'ok': [float(v) for v in out.ravel()], 'dtype': str(out.dtype)}
+            if 0 <= ax < nd:
+                res['np_lines'] = np.moveaxis(idx, ax, -1).reshape(-1, shape[ax]).tolist()
+            return post(res, [out])
         if f == 'aesth':
             n = len(c['flux']) if isinstance(c['flux'], list) else None
             flux = arr(c, 'flux', (n,) if n is not None else None)
